@@ -4,6 +4,7 @@
 // shape may legitimately be a dynamic head part), both directions, there and back.
 // See DESIGN.md "### C12", "### C10" (partition invariants) and section 5 (k).
 #include "c12_models.hpp"
+#include "partrows.hpp"
 
 #include <cmath>
 #include <dirent.h>
@@ -143,6 +144,7 @@ struct ShapeSnap {
 	bool hasSegs = false;
 	std::vector<std::array<uint32_t, 3>> segs;
 	std::vector<std::string> partProblems; // C10 invariants, only filled on request
+	long partRowsCompared = 0;
 	std::string partDetail;
 };
 
@@ -469,6 +471,12 @@ static void check_partitions(NifFile& nif, NiShape* s, ShapeSnap& o) {
 		if (bsd->partitions.size() != skinPart->partitions.size())
 			add("dismember-list-misaligned", vf::strf("%u dismember entries for %zu partitions", (unsigned) bsd->partitions.size(), skinPart->partitions.size()));
 	if (skinPart->numPartitions != skinPart->partitions.size()) add("count-mismatch", "numPartitions");
+	// every conversion ends in UpdateSkinPartitions, which derives each partition row from NiSkinData
+	if (auto sd = hdr.GetBlock(skinInst->dataRef)) {
+		partrows::Result pr = partrows::check(*sd, *skinPart, 2e-3f);
+		o.partRowsCompared += pr.rows_compared;
+		if (!pr.msg.empty()) add("partition-row-differs-from-skindata", pr.msg);
+	}
 	if (auto bs = dynamic_cast<BSTriShape*>(s)) {
 		if (bs->IsSkinned())
 			for (size_t v = 0; v < bs->vertData.size(); v++) {
@@ -936,6 +944,7 @@ static bool run_scenario(const Source& src, const std::string& bytes, const Opts
 	report(st, d1, p2, &seen1, "@reload", src, o, nullptr);
 	for (auto& p : p2)
 		if (!seen1.count(p.key)) bad = true;
+	for (auto& s : S2.shapes) st.add("partition_rows_compared_with_skindata", s.partRowsCompared);
 	for (auto& s : S2.shapes)
 		for (auto& k : s.partProblems) {
 			bad = true;
